@@ -1,6 +1,6 @@
 (* K-val and K-ops channels on the model. *)
 From Coq Require Import Strings.String.
-From BP7 Require Import Base.Prelude Base.Decimal Gen.Consts Model.Hex Model.Types Model.Encode Model.Decode Model.Validate Model.Ops.
+From BP7 Require Import Base.Prelude Base.Decimal Gen.Consts Model.Hex Model.Types Model.Encode Model.Decode Model.Validate Model.Ops Model.DtnTime.
 From BP7 Require Import Run.Proto Run.BundleIO.
 
 Definition show_validity (b : bundle) : list byte :=
@@ -19,7 +19,7 @@ Definition run_validate (args : list tok) : list byte :=
 
 Inductive op :=
   | OAdd (c : canonical) | OSetPayload (d : list byte) | OSetPayloadBlock (c : canonical)
-  | OSetCrc (code : N) | OUpdate (node : eid) (residence : N) | OSort.
+  | OSetCrc (code : N) | OUpdate (node : eid) (residence : N) | OSort | OQuery.
 
 Definition parse_op : P op := fun ts =>
   match ts with
@@ -30,6 +30,7 @@ Definition parse_op : P op := fun ts =>
     else if tok_is t "SETCRC" then (let* k := pN in pret (OSetCrc k)) r
     else if tok_is t "UPD" then (let* e := parse_eid in let* n := pN in pret (OUpdate e n)) r
     else if tok_is t "SORT" then Some (OSort, r)
+    else if tok_is t "Q" then Some (OQuery, r)
     else None
   | [] => None
   end.
@@ -48,6 +49,21 @@ Fixpoint parse_ops (fuel : nat) : P (list op) := fun ts =>
     end
   end.
 
+(* bundle.rs:397-400 previous_node *)
+Definition previous_node (b : bundle) : option eid :=
+  match ext_block_by_type PREVIOUS_NODE_BLOCK (b_canonicals b) with
+  | Some c => match c_data c with PreviousNode e => Some e | _ => None end
+  | None => None
+  end.
+(* Q: the read-only part of the receive path: crc_valid, is_administrative_record, previous_node,
+   is_lifetime_exceeded (hooked clock), Display of the creation timestamp *)
+Definition query (m : ovf_mode) (clock : N) (b : bundle) : res (list byte) :=
+  do ltx <- is_lifetime_exceeded m clock (b_primary b);
+  do ts <- timestamp_to_string (p_time (b_primary b)) (p_seq (b_primary b));
+  Ok (join [S_ "CRC"; show_bool (crc_valid b); S_ "ADM"; show_bool (is_admin_record b);
+            S_ "PREV"; match previous_node b with Some e => show_eid e | None => S_ "-" end;
+            S_ "LTX"; show_bool ltx; S_ "TS"; show_bytes ts]).
+
 (* one step: new bundle and the textual return value of the operation *)
 Definition step (m : ovf_mode) (clock : N) (b : bundle) (o : op) : res (list byte * bundle) :=
   match o with
@@ -57,6 +73,7 @@ Definition step (m : ovf_mode) (clock : N) (b : bundle) (o : op) : res (list byt
   | OSetCrc k => Ok (S_ "-", set_crc b k)
   | OSort => Ok (S_ "-", sort_canonicals b)
   | OUpdate e n => do rb <- update_extensions m clock e n b; Ok (show_bool (fst rb), snd rb)
+  | OQuery => do q <- query m clock b; Ok (q, b)
   end.
 Fixpoint run_steps (m : ovf_mode) (clock : N) (b : bundle) (ops : list op) : res (list (list byte) * bundle) :=
   match ops with
@@ -69,24 +86,38 @@ Definition show_payload (b : bundle) : list byte :=
   match payload b with Some d => show_bytes d | None => S_ "NONE" end.
 
 (* OPS <clock_ms> <bundle> ; op ; op ... -> OK ; <ret> <bundle> ; ... FINAL <validity> PL <payload> RT T|F *)
+Definition finish_ops (m : ovf_mode) (clock : N) (b : bundle) (rest' : list tok) : list byte :=
+  match parse_ops (S (length rest')) rest' with
+  | Some (ops, []) =>
+    match run_steps m clock b ops with
+    | Ok (outs, bf) =>
+      let '(bs, bf') := to_cbor bf in
+      let rt := match from_cbor bs with Ok d => bundle_eqb d bf' | _ => false end in
+      join ([S_ "OK"] ++ outs ++ [S_ "FINAL"; show_validity bf; S_ "PL"; show_payload bf; S_ "RT"; show_bool rt])
+    | Err _ => S_ "ERR"
+    | Panic _ => S_ "PANIC"
+    end
+  | _ => bad_case
+  end.
+(* the bundle is given either as `B ...` tokens or as `X x<bytes>` (decoded first: the receive path) *)
 Definition run_ops (m : ovf_mode) (args : list tok) : list byte :=
   match args with
   | c :: rest =>
-    match get_N c, parse_bundle rest with
-    | Some clock, Some (b, rest') =>
-      match parse_ops (S (length rest')) rest' with
-      | Some (ops, []) =>
-        match run_steps m clock b ops with
-        | Ok (outs, bf) =>
-          let '(bs, bf') := to_cbor bf in
-          let rt := match from_cbor bs with Ok d => bundle_eqb d bf' | _ => false end in
-          join ([S_ "OK"] ++ outs ++ [S_ "FINAL"; show_validity bf; S_ "PL"; show_payload bf; S_ "RT"; show_bool rt])
-        | Err _ => S_ "ERR"
-        | Panic _ => S_ "PANIC"
-        end
+    match get_N c with
+    | Some clock =>
+      match rest with
+      | t :: xb :: rest' =>
+        if tok_is t "X" then
+          match get_bytes xb with
+          | Some bs => match from_cbor bs with
+                       | Ok b => finish_ops m clock b rest'
+                       | Err _ => S_ "DECERR" | Panic _ => S_ "PANIC" end
+          | None => bad_case
+          end
+        else match parse_bundle rest with Some (b, rest'') => finish_ops m clock b rest'' | None => bad_case end
       | _ => bad_case
       end
-    | _, _ => bad_case
+    | None => bad_case
     end
   | [] => bad_case
   end.
